@@ -200,6 +200,15 @@ fn natural_rdata_pointing(code: u16) -> Option<Vec<u8>> {
 }
 
 /// All messages for one middle-record type code.
+pub fn family_groups(code: u16, extra: usize) -> Vec<(Vec<u8>, bool, u64, usize)> {
+    let mut out = family_grouped(natural_rdata(code), code, extra, false);
+    if let Some(nat) = natural_rdata_pointing(code) {
+        let names = schema::schema(code).map(|s| s.fields.iter().filter(|(_, k)| matches!(k, schema::Kind::Name(_))).count()).unwrap_or(0);
+        out.extend(family_grouped(nat, code, extra.max(12 * names + 4), true));
+    }
+    out
+}
+
 pub fn family(code: u16, extra: usize) -> Vec<(Vec<u8>, bool)> {
     let mut out = family_with(natural_rdata(code), code, extra, false);
     if let Some(nat) = natural_rdata_pointing(code) {
@@ -211,6 +220,13 @@ pub fn family(code: u16, extra: usize) -> Vec<(Vec<u8>, bool)> {
 }
 
 fn family_with(nat: Vec<u8>, code: u16, extra: usize, lead_only: bool) -> Vec<(Vec<u8>, bool)> {
+    family_grouped(nat, code, extra, lead_only).into_iter().map(|(m, e, _, _)| (m, e)).collect()
+}
+
+/// As `family_with`, each message tagged with (group, sentinels): messages of one group differ
+/// only in how many well-formed sentinel records follow the middle record (group 0 = not part
+/// of a group: perturbed counts).
+fn family_grouped(nat: Vec<u8>, code: u16, extra: usize, lead_only: bool) -> Vec<(Vec<u8>, bool, u64, usize)> {
     let mut fillers: Vec<Vec<u8>> = Vec::new();
     fillers.push(vec![0u8; extra + 4]);
     {
@@ -268,6 +284,7 @@ fn family_with(nat: Vec<u8>, code: u16, extra: usize, lead_only: bool) -> Vec<(V
                             }
                         }
                     }
+                    let gid = 1 + ((fi as u64) << 40 | (r as u64) << 8 | placement as u64) + if lead_only { 1 << 60 } else { 0 };
                     for (vi, (c, expect)) in variants.into_iter().enumerate() {
                         // the header flags must not influence framing: cycle through response,
                         // truncated response, truncated query and an UPDATE opcode
@@ -277,7 +294,7 @@ fn family_with(nat: Vec<u8>, code: u16, extra: usize, lead_only: bool) -> Vec<(V
                             m.extend_from_slice(&x.to_be_bytes());
                         }
                         m.extend_from_slice(&body);
-                        out.push((m, expect));
+                        out.push((m, expect, if vi == 0 { gid } else { 0 }, nsent));
                     }
                 }
             }
@@ -294,9 +311,11 @@ pub fn run(ctx: &Ctx) {
     codes.extend([41u16, 10, 99]);
     let total = std::sync::atomic::AtomicU64::new(0);
     par_shards(ctx, &codes, |code, t: &mut Tally| {
-        let fam = family(*code, extra);
+        let fam = family_groups(*code, extra);
         total.fetch_add(fam.len() as u64, std::sync::atomic::Ordering::Relaxed);
-        for (m, expect) in &fam {
+        // acceptance of the middle record when nothing follows it, per group
+        let mut alone: std::collections::HashMap<u64, bool> = std::collections::HashMap::new();
+        for (m, expect, gid, nsent) in &fam {
             t.evals += 1;
             let (f, tag, acc) = check_msg(m, *expect);
             if acc {
@@ -305,6 +324,18 @@ pub fn run(ctx: &Ctx) {
             t.outcome(tag);
             if !f.is_empty() {
                 ctx.violations(f);
+            }
+            if *gid != 0 {
+                if *nsent == 0 {
+                    alone.insert(*gid, acc);
+                } else if alone.get(gid) == Some(&true) && !acc {
+                    // the same record was accepted as the last entry; what follows it is well formed
+                    ctx.violation(finding(
+                        format!("C05|framing-depends-on-what-follows|TYPE{}", code),
+                        format!("a message ending in this record is accepted, the same message with {} well-formed A record(s) after it is rejected: the entry after the record is not read from where the record ends; {}", nsent, crate::engine::truncate(&hex(m), 300)),
+                        json!({"kind": "follow", "msg": hex(m), "sentinels": nsent}),
+                    ));
+                }
             }
         }
     });
@@ -495,6 +526,36 @@ pub fn run(ctx: &Ctx) {
     ctx.sample(json!({"kind": "msg", "msg": hex(&fam[fam.len() - 1].0), "expect_accept": fam[fam.len() - 1].1}));
 }
 
+/// Replay of a "follow" case: strip the sentinel records (and lower the counts), see whether the
+/// shorter message is accepted, then whether the full one is.
+fn replay_follow(msg: &[u8], nsent: usize) -> Vec<Finding> {
+    let case = json!({"kind": "follow", "msg": hex(msg), "sentinels": nsent});
+    // a sentinel A record with owner "sN.example" is 2+1+7+1 + 10 + 4 = 26 bytes... recompute from the tail
+    let sentinel_len = a_record("s1.example", 1).len();
+    if msg.len() < 12 + nsent * sentinel_len {
+        return vec![];
+    }
+    let mut alone = msg[..msg.len() - nsent * sentinel_len].to_vec();
+    // the sentinels are counted in the last non-zero count of the header
+    for idx in [3usize, 1] {
+        let c = u16::from_be_bytes([alone[4 + idx * 2], alone[5 + idx * 2]]);
+        if c as usize >= nsent && c > 0 {
+            alone[4 + idx * 2..6 + idx * 2].copy_from_slice(&(c - nsent as u16).to_be_bytes());
+            break;
+        }
+    }
+    let a = check_msg(&alone, false).2;
+    let b = check_msg(msg, false).2;
+    if a && !b {
+        vec![finding("C05|framing-depends-on-what-follows|replayed", "accepted alone, rejected when well-formed records follow".to_string(), case)]
+    } else {
+        vec![]
+    }
+}
+
 pub fn replay(case: &Value) -> Vec<Finding> {
+    if case["kind"].as_str() == Some("follow") {
+        return replay_follow(&unhex(case["msg"].as_str().unwrap_or("")), case["sentinels"].as_u64().unwrap_or(1) as usize);
+    }
     check_msg(&unhex(case["msg"].as_str().unwrap_or("")), case["expect_accept"].as_bool().unwrap_or(false)).0
 }
